@@ -373,6 +373,16 @@ func ruleForwardGuards(r *Run, rule string, fns []*ssa.Function, optional map[st
 							subject, present, known = cmp.R, !n2, true
 						case cmp.Op == token.LEQ && cmp.R == "c(0)": // f <= 0
 							subject, present, known = cmp.L, n2, true
+						case cmp.Op == token.LEQ && cmp.L == "c(1)": // 1 <= f
+							subject, present, known = cmp.R, !n2, true
+						case cmp.Op == token.LSS && cmp.R == "c(1)": // f < 1
+							subject, present, known = cmp.L, n2, true
+						case cmp.Op == token.EQL && (cmp.L == "c(0)" || cmp.R == "c(0)"): // f == 0 / f != 0
+							other := cmp.L
+							if other == "c(0)" {
+								other = cmp.R
+							}
+							subject, present, known = other, n2, true
 						}
 					}
 				}
